@@ -146,6 +146,7 @@ func TestVerifC02InSyncNotEarly(t *testing.T) {
 		}
 
 		mon := dpmon.New()
+		mon.NoFlushBoundaries()
 		var problems []string
 		for i, s := range seen {
 			if s.statusSent {
